@@ -11,6 +11,7 @@ from vf import core
 
 META = {
     'property_id': 'C18',
+    'confirm_by_replay': True,   # bin/check re-executes the stimulus of every violation before it is reported
     'level': 'model_checking',
     'technique': 'TLA+ spec (Activity.tla: Raft log, replicated lastPublished, dispatcher goroutine with publish / '
                  'record / back-off, controller change, restart, snapshot) checked exhaustively by TLC incl. liveness; '
